@@ -22,11 +22,20 @@ func (c limitListenerConn) release.call()
   modifies released
   ensures released == old(released) + 1
 
+// (the slot is given back only after the underlying connection is closed: a connection that is still closing
+// still counts against the cap)
+ghost var gConnClosed bool
+ghost var gReleasedBeforeClose bool
 func (l *limitListenerConn) Close() (err error)
   requires l != nil && l.Conn != nil
-  modifies released, l.releaseOnce
+  modifies released, l.releaseOnce, gConnClosed, gReleasedBeforeClose
   ensures permit-released-exactly-once: released == old(released) + (old(onceDone(l.releaseOnce)) ? 0 : 1)
   ensures closed-for-good: onceDone(l.releaseOnce)
+  ensures the-slot-is-released-only-after-the-connection-is-closed: gConnClosed && !gReleasedBeforeClose
+  ghost at entry: gConnClosed := false
+  ghost at entry: gReleasedBeforeClose := false
+  ghost at call Close: gConnClosed := true
+  ghost at call release: gReleasedBeforeClose := gReleasedBeforeClose || !gConnClosed
 
 // a run-time change of the cap always reaches the semaphore: afterwards the capacity recorded there is the
 // one just set (the reserve is adjusted in the background, see pkg/util/sem)
